@@ -26,7 +26,7 @@
 #define MAXOPS 24
 #define MAXCOND 8
 #define MAXV 4
-enum { O_GATE = 100 };
+enum { O_GATE = 100, O_GET = 101 };
 enum { O_LOCK, O_TRYLOCK, O_UNLOCK, O_UNLOCKWW, O_SET, O_SKIPUNLESS, O_MUWAIT, O_CVWAIT, O_CVLOOP, O_WAITN, O_WAITNLOOP,
        O_SIGNAL, O_BROADCAST, O_DEBUG, O_NOTIFY, O_DECREF, O_FREEIFLAST, O_NOP };
 static const char *opnames[] = { "lock", "trylock", "unlock", "unlockww", "set", "skipunless", "muwait", "cvwait", "cvloop", "waitn", "waitnloop",
@@ -51,6 +51,7 @@ static struct {
 	int ip[RT_MAXT];
 	int picked[RT_MAXT];
 	int waits_started[RT_MAXT];
+	int sink;
 } S;
 static int maxsleeps;
 static int fine_notes;    /* VERIF_FINE: the cancellation note's operations are interleaved at atomic-operation granularity (random mode only) */
@@ -69,6 +70,7 @@ static int cond_eval (const void *v) {
 	if (writers > 0 && rt_held_by (S.mu, rt_self ()) != 1)
 		rt_violation ("O-cond", "condition evaluated by thread %d while another thread is inside a write critical section", rt_self ());
 	rt_noyield_end ();
+	__tsan_read4 (a->cell);
 	return *a->cell != 0;
 }
 static int condf1 (const void *v) { return cond_eval (v); }
@@ -120,6 +122,7 @@ static void client (void *arg) {
 			if (rt_held_by (S.mu, t) != 1) rt_violation ("O-harness", "client wrote a cell without the write lock (scenario error)");
 			break;
 		case O_GATE: ip++; break;
+		case O_GET: ip++; __tsan_read4 (&S.cells[o->v - 1]); S.sink += S.cells[o->v - 1]; break;
 		case O_SKIPUNLESS: ip += (S.ret[t] != 1) ? 1 + o->skip : 1; break;
 		case O_MUWAIT: S.waits_started[t]++; /* fall through */
 		case O_MUWAIT + 1000: {
@@ -178,6 +181,7 @@ static void client (void *arg) {
 static int find_op (const char *s, size_t n) {
 	unsigned i;
 	if (n == 4 && !strncmp (s, "gate", 4)) return O_GATE;
+	if (n == 3 && !strncmp (s, "get", 3)) return O_GET;
 	for (i = 0; i < sizeof opnames / sizeof opnames[0]; i++) if (strlen (opnames[i]) == n && strncmp (opnames[i], s, n) == 0) return (int) i;
 	fprintf (stderr, "h_mu: unknown op %.*s\n", (int) n, s); exit (2);
 }
